@@ -118,7 +118,7 @@ def host_pattern(domain):
     return r'(?![\W\-\:\ \.])[a-zA-Z0-9\-\_\.]*\.%s' % domain
 
 
-NONASCII = u"é€中٣ "   # é € 中 ٣ NBSP (no character with a distinct lower/upper form that matters)
+NONASCII = u"\u00e9\u20ac\u4e2d\u0663\u00a0\u0085\u2028\u2029"   # é € 中 ٣ NBSP NEL LS PS (no character with a distinct lower/upper form that matters)
 
 
 def sha(s):
@@ -199,9 +199,53 @@ def hextets(lines):
     return out
 
 
+def real_hostname(sock):
+    """the system's REAL name as insights.util.hostname.determine_hostname documents it ("find fqdn if we can"): the name
+    the resolver gives for the host name, else the fqdn, when one of them is longer than the bare host name and is not a
+    localhost name; else the host name — written from that description, not imported"""
+    hn, fq, ex = sock["gethostname"], sock["getfqdn"], sock["ex"] or ""
+    if len(fq) > len(hn) or len(ex) > len(hn):
+        if ex and "localhost" not in ex:
+            return ex
+        if "localhost" not in fq:
+            return fq
+    return hn
+
+
+class patched_socket(object):
+    """socket.gethostname / getfqdn / gethostbyname_ex (and gethostbyname) answer with generated names"""
+
+    def __init__(self, sock):
+        self.sock = sock
+
+    def __enter__(self):
+        import socket
+        sock = self.sock
+        self.saved = dict((n, getattr(socket, n)) for n in ("gethostname", "getfqdn", "gethostbyname_ex", "gethostbyname"))
+
+        def ex(name):
+            if sock["ex"] is None:
+                raise socket.gaierror(-2, "Name or service not known")
+            return (sock["ex"], [], ["192.0.2.1"])
+        socket.gethostname = lambda: sock["gethostname"]
+        socket.getfqdn = lambda name="": sock["getfqdn"]
+        socket.gethostbyname_ex = ex
+        socket.gethostbyname = lambda name: "192.0.2.1"
+        return self
+
+    def __exit__(self, *a):
+        import socket
+        for n, f in self.saved.items():
+            setattr(socket, n, f)
+
+
 def mk_cleaner(cfg, facts_file=None):
+    extra = {}
+    for k in ("display_name", "ansible_host"):
+        if cfg.get(k):
+            extra[k] = cfg[k]
     conf = InsightsConfig(obfuscate=bool(cfg["obfuscate"]), obfuscate_ipv6=bool(cfg["ipv6"]),
-                          obfuscate_hostname=bool(cfg["hostname"]), obfuscate_mac=bool(cfg["mac"]))
+                          obfuscate_hostname=bool(cfg["hostname"]), obfuscate_mac=bool(cfg["mac"]), **extra)
     if facts_file:
         conf.rhsm_facts_file = facts_file
     rm = {}
@@ -209,6 +253,10 @@ def mk_cleaner(cfg, facts_file=None):
         rm["keywords"] = list(cfg["keywords"])
     if cfg["patterns"]:
         rm["patterns"] = list(cfg["patterns"])
+    if cfg.get("socket"):
+        # no fqdn given (as insights.collect.collect() and InsightsConnection._clean_facts() do): the Cleaner finds the name
+        with patched_socket(cfg["socket"]):
+            return Cleaner(conf, rm)
     return Cleaner(conf, rm, cfg["fqdn"])
 
 
@@ -402,6 +450,17 @@ class Gen(object):
             if self.pool["ip"] and r.random() < 0.3:
                 a = r.choice(self.pool["ip"])
             return a + r.choice(["", ":22", ":8080", ":*", ":5432"])
+        if r.random() < 0.2:
+            # only addresses that are longer than any substitute, blanks behind all but the last, which ends the line:
+            # nothing is removed and no padding goes astray — the parser pads, or raises at the end of the line
+            def long_addr():
+                a = "1%02d.1%02d.1%02d.1%02d" % (r.randrange(100), r.randrange(100), r.randrange(100), r.randrange(100))
+                if a not in self.pool["ip"]:
+                    self.pool["ip"].append(a)
+                return a
+            text = r.choice(["tcp", "udp"]) + " " * r.choice([1, 5]) + "0 0 " + long_addr() + r.choice(["", ":22", ":8080"]) + \
+                " " * r.choice([1, 2, 6]) + r.choice(["", "LISTEN" + " " * r.choice([1, 4])]) + long_addr()
+            return text, [("junk", text)]
         pads = [0, 1, 1, 2, 3, 6, 12, 20]
         parts = []
         if r.random() < 0.8:
@@ -458,10 +517,27 @@ class Gen(object):
                 toks.append(("word", r.choice(WORDS)))
             else:
                 toks.append(("junk", self.junk()))
+        if r.random() < 0.18:
+            # an IGNORED item before, between and after the real ones (`brd ff:ff:ff:ff:ff:ff peer 52:54:…`)
+            kind = r.choice(["mac", "mac", "ip", "ip6"])
+            ign = {"mac": ["ff:ff:ff:ff:ff:ff", "00:00:00:00:00:00", "FF:FF:FF:FF:FF:FF"], "ip": ["127.0.0.1"],
+                   "ip6": ["ab:cd ::1", "fe80 ::5", "1:2 ::"]}[kind]
+            reals = [self.original(kind) for _ in range(r.randrange(1, 4))]
+            seq = [("junk" if kind == "ip6" else kind, x) for x in reals]
+            for pos in r.sample(["before", "between", "after"], r.randrange(1, 4)):
+                item = ("word" if kind != "ip6" else "junk", r.choice(ign))
+                if pos == "before":
+                    seq.insert(0, item)
+                elif pos == "after":
+                    seq.append(item)
+                else:
+                    seq.insert(max(1, len(seq) // 2), item)
+            at = r.randrange(len(toks) + 1)
+            toks[at:at] = [("word", r.choice(["brd", "peer", "lo"]))] + seq
         text = ""
         for i, (_, t) in enumerate(toks):
             if i:
-                text += r.choice(DELIMS)
+                text += r.choice(DELIMS if i > 1 or toks[0][1] not in ("brd", "peer", "lo") else [" "])
             text += t
         return text, toks
 
@@ -479,6 +555,17 @@ def gen_history(rng, tier):
         "keywords": rng.choice([None, [], ["Zorg"], ["QUUX", " wibble "], ["xyzzy", "Zorg", "xyzzy"], ["link", "Zorg"]]),
         "patterns": rng.choice([[], [], [], ["mtu"], ["GET", "via"]]),
     }
+    if rng.random() < 0.2:
+        short = fqdn.split(".")[0]
+        k = rng.randrange(5)
+        sock = ({"gethostname": short, "getfqdn": fqdn, "ex": fqdn}, {"gethostname": fqdn, "getfqdn": fqdn, "ex": fqdn},
+                {"gethostname": short, "getfqdn": fqdn, "ex": None}, {"gethostname": short, "getfqdn": "localhost", "ex": fqdn},
+                {"gethostname": short, "getfqdn": "localhost.localdomain", "ex": None})[k]
+        cfg["socket"] = sock
+        cfg["fqdn"] = fqdn = real_hostname(sock)
+        dom = fqdn.split(".", 1)[1] if "." in fqdn else "lab.io"
+        cfg["display_name"] = rng.choice([None, "label-%d.%s" % (rng.randrange(9), dom), "Production DB", "shown.other.org"])
+        cfg["ansible_host"] = rng.choice([None, "ansible-%d.%s" % (rng.randrange(9), dom), "jump.mgmt.net"])
     g = Gen(rng, fqdn, prone=prone)
     ncalls = rng.choice([1, 2, 3, 4, 6, 8, 12] if tier == "quick" else [1, 2, 4, 8, 12, 20, 30])
     calls = []
@@ -571,15 +658,19 @@ def width_deletes(line, k):
     call. Or it pads in the wrong place: an address longer than a substitute is followed by text without any blank.
     On every other width-mode line blanks are inserted at a blank behind the address, or the parser raises."""
     longest = max(len(int2ip(START + j)) for j in range(max(1, min(k, 70000))))
-    for m in re.finditer(r"[0-9]{1,3}(?:\.[0-9]{1,3}){3}", line):
-        q = m.group(0)
-        for a in (q, q[1:], q[2:]):          # (a match of the cleaner may start inside a longer digit run)
+    # every way to read an address that starts at a word boundary (an address needs one in front; it may stop before the
+    # end of a digit run: '8.8.4.4192.168.1.2')
+    for m in re.finditer(r"(?=((?:[0-9]{1,3}\.){3})([0-9]{1,3}))", line):
+        if m.start() > 0 and (line[m.start() - 1].isalnum() or line[m.start() - 1] == "_"):
+            continue
+        for n in range(1, len(m.group(2)) + 1):
+            a = m.group(1) + m.group(2)[:n]
             if canonical_ip(a) and a != "127.0.0.1":
                 if len(a) < longest:
                     return True
                 # the other way the step damages a line: an address LONGER than its substitute (12 characters at least)
                 # with text but no blank behind it — the padding is then inserted before the LAST character of the line
-                tail = line[m.end():]
+                tail = line[m.start() + len(a):]
                 if len(a) > 12 and tail != "" and " " not in tail:
                     return True
     return False
@@ -620,6 +711,7 @@ class Oracle(object):
         self.seen = {"ip": set(), "mac": set(), "host": set()}
         self.pending = []        # (call index, line index, field index, kind, original, shown)
         self.emitted = []        # (call index, call, output) of every call that returned
+        self.pending6 = []       # (call index, line index, field, shown) of fields that may be IPv6 originals
         self.not_emitted = 0
         self.garbled = None
 
@@ -674,6 +766,7 @@ class Oracle(object):
             return
         short = cfg["fqdn"].split(".")[0]
         kw_on = bool(cfg["keywords"]) and "keyword" not in call["no_obfuscate"]
+        ip6_on = cfg["obfuscate"] and cfg["ipv6"] and "ipv6" not in call["no_obfuscate"]
         for li, (src, dst) in enumerate(zip(call["lines"], out)):
             fi, fo = fields(src), fields(dst)
             if len(fi) != len(fo):
@@ -695,10 +788,16 @@ class Oracle(object):
                     continue
                 if kind and stage_on[kind]:
                     self.pending.append((idx, li, j, kind, a, b))
+                elif kind is None and ":" in a and ip6_on and not (stage_on["host"] and short and short in a):
+                    # (input-only) the address is followed by one character and '::': the IPv6 pattern then takes
+                    # "<address><char>::<rest>" as ONE match, which the ignore list (white space) skips
+                    swallowed = bool(re.search(re.escape(a) + r"[^.]::", src))
+                    self.pending6.append((idx, li, a, b, swallowed))
 
     def finish(self, maps, fail):
         """every delimited original shows its mapped substitute — judged against the FINAL mapping"""
         issued = maps
+        cfg = self.cfg
         m = {"ip": dict(maps["ip"]), "host": dict(maps["hostname"]), "mac": dict(maps["mac"])}
         macsubs = set(s for _, s in maps["mac"])
         shown = {}
@@ -713,8 +812,15 @@ class Oracle(object):
                 fail("%s %r (call %d line %d) is shown as %r but the mapping says %r" % (kind, a, idx, li, b, want), kind, issued)
             if shown.setdefault((kind, a), b) != b:
                 fail("%s %r is shown as %r and as %r" % (kind, a, shown[(kind, a)], b), kind, issued)
+        # IPv6: a delimited field that IS an original of the mapping shows its substitute wherever the stage was on
+        m6 = dict(maps["ipv6"])
+        for idx, li, a, b, swallowed in self.pending6:
+            if a in m6 and b != m6[a] and not (cfg["keywords"] and any(k.strip() in m6[a] or k.strip() in a for k in cfg["keywords"])):
+                fail("ipv6 %r (call %d line %d) is shown as %r but the mapping says %r" % (a, idx, li, b, m6[a]), "ipv6", issued,
+                     "ipv6-swallowed-by-ignored-match" if swallowed else None)
         # different spellings of one MAC (case, separator) are different originals: where the documented scheme
         # (sha1 of each lower-cased pair, same case and separator) gives them different substitutes they must not share one
+        cfg = self.cfg
         macs = maps["mac"]
         for x in range(len(macs)):
             for y in range(x + 1, len(macs)):
@@ -760,9 +866,13 @@ class Oracle(object):
 
 # --------------------------------------------------------------------------- run one history
 
+CURRENT_REAL_NAME = [None]
+
+
 def run_history(h, tmp, want_reports=False):
     """-> (impl outputs per call, impl mappings per call, failures [(desc, finding)], reports)"""
     cfg = h["cfg"]
+    CURRENT_REAL_NAME[0] = cfg["fqdn"]
     facts = os.path.join(tmp, "facts.json")
     cl = mk_cleaner(cfg, facts)
     cl.report_dir = tmp
@@ -813,6 +923,9 @@ def reports(cl, tmp, final, fail):
             want_txt = "".join(x + "\n" for x in [head] + ["%s,%s" % (sub, orig) for orig, sub in final[k]])
             if got_txt != want_txt:
                 fail("%s differs from mapping(): %r vs %r" % (name, got_txt, want_txt), "report", None)
+    if facts.get("insights_client.hostname") != cl.fqdn or cl.fqdn != CURRENT_REAL_NAME[0]:
+        fail("the system name in the facts file / of the Cleaner is %r / %r, the system's real name is %r" % (
+            facts.get("insights_client.hostname"), cl.fqdn, CURRENT_REAL_NAME[0]), "report", None)
     enabled = [facts["insights_client.obfuscate_ipv4_enabled"], facts["insights_client.obfuscate_hostname_enabled"],
                facts["insights_client.obfuscate_mac_enabled"], facts["insights_client.obfuscate_ipv6_enabled"]]
     return {"facts": got, "enabled": enabled, "hostname": facts["insights_client.hostname"]}
@@ -963,6 +1076,10 @@ def run(chk):
             seen.add(key)
             chk.count("calls:%d" % len(h["calls"]))
             chk.count("fqdn:" + h["cfg"]["fqdn"])
+            if h["cfg"].get("socket"):
+                chk.count("system-name:self-determined")
+                if h["cfg"].get("display_name") or h["cfg"].get("ansible_host"):
+                    chk.count("system-name:other-labels-configured")
             for k in KINDS:
                 if maps and maps[-1][k]:
                     chk.count("issued-" + k, len(maps[-1][k]))
